@@ -331,6 +331,11 @@ def cases(tier):
                        patches=_patches(), max_paths=100)
 
 
+    # one-based integer tables whose fill value is kept as an attribute (0, -1, a large number): built in memory
+    for fv in (0, -1, 999999):
+        yield Case(f'ugrid:tqp:one-based:fill{fv}:name', body,
+                   dict(conv='ugrid', shape='tqp', bounds='none', layout='plain', mode='name', mesh_opts=dict(start_index=1, fill='attr', fill_value=fv)),
+                   patches=_patches(), max_paths=100)
     # grids whose cells may be self-intersecting (dropped with a warning) *and* missing: the dropped cell's slot is found in
     # the full array, not among the cells that exist
     for conv, shape in ((('cf2d', (1, 3)),) if q else (('cf2d', (1, 3)), ('shoc_simple', (2, 2)))):
